@@ -135,11 +135,35 @@ def plan(prop, tier, seed, avoid):
         spec2 = dict(spec, profile="scale", flags=flags + ["-sweep", "10", "-stats", "20", "-minops", "400", "-maxops", "800"],
                      quick=dict(plain=64, checkptr=16), thorough=dict(plain=3200, checkptr=320))
         jobs += engine_jobs(prop, tier, seed + 13, avoid, spec2, None, "scale:")
+        extra = ""
+        if prop == "C01":
+            # third job group: every case starts with the scripted method matrix of one typed tuple (each generated arity of
+            # MapN / ExchangeN, single and batch forms, into empty and into populated tables)
+            spec3 = dict(spec, flags=spec["flags"] + ["-matrix", "-minops", "60", "-maxops", "160"], quick=dict(plain=570), thorough=dict(plain=22800))
+            jobs += engine_jobs(prop, tier, seed + 17, avoid, spec3, None, "matrix:")
+            extra = ("; job group 3 ('matrix:'): each history is preceded by the scripted method matrix of one typed tuple (case index mod "
+                     "number of tuples)")
+        if prop == "C04":
+            # third job group: a second world with other component IDs gets the same relation argument lists
+            spec3 = dict(spec, flags=spec["flags"] + ["-twin", "shared"], quick=dict(plain=480), thorough=dict(plain=16000))
+            jobs += engine_jobs(prop, tier, seed + 19, avoid, spec3, None, "shared:")
+            extra = ("; job group 3 ('shared:'): every op is also executed on a second world with different component IDs, both worlds "
+                     "receiving the same relation argument lists (built once with Rel/RelIdx)")
         rule = (f"histories generated by profile '{spec['profile']}' from splitmix64(VERIF_SEED, case index): world configuration "
                 f"(capacities, component-ID offset, registration order) plus 150-600 ops drawn from the model state; distinct = distinct SHA-256 "
                 f"of the rendered op list; job group 2 ('scale:'): profile 'scale' - 400-800 ops, up to 3000 alive entities in few tables "
                 f"(batches of up to 900: several capacity doublings), relation targets drawn from a pool of 400 entities (hundreds of relation "
-                f"tables, long free lists), state sweep every 10th op; {spec['rule_extra']}")
+                f"tables, long free lists), state sweep every 10th op{extra}; {spec['rule_extra']}")
+        return dict(jobs=jobs, rule=rule, assumptions=ASSUME_ENGINE)
+    if prop == "C06":
+        # second job group: every case starts with the scripted method matrix of one typed tuple
+        spec = ENGINE[prop]
+        jobs = engine_jobs(prop, tier, seed, avoid)
+        spec2 = dict(spec, flags=spec["flags"] + ["-matrix", "-minops", "60", "-maxops", "160"], quick=dict(plain=570), thorough=dict(plain=22800))
+        jobs += engine_jobs(prop, tier, seed + 23, avoid, spec2, None, "matrix:")
+        rule = (f"histories generated by profile '{spec['profile']}' (see C01 for the scheme), every op also executed through the ID-based API on a "
+                f"twin world; job group 2 ('matrix:'): each history is preceded by the scripted method matrix of one typed tuple (every batch "
+                f"method of that MapN / ExchangeN arity, into empty and into populated tables); {spec['rule_extra']}")
         return dict(jobs=jobs, rule=rule, assumptions=ASSUME_ENGINE)
     if prop == "C15":
         # second job group: whole tables created, emptied, shrunk and refilled in bulk (initial capacities 64..256, batches of up to 150)
